@@ -28,6 +28,15 @@ Theorem facts_image_index : forall i w h y x c,
 Proof. exact FactsCheckImg.img_index_lemma. Qed.
 Print Assumptions facts_image_index.
 
+(* the writer's extra stack is O(one row): the row scratch buffer is alloca'd ONCE before the row loop
+   (alloca memory is released only when the function returns) and holds N_COMP * sizeX components,
+   independent of the height *)
+Theorem facts_image_stack_one_row : forall i w h y x c,
+  im_scratch_once gen_img = true /\
+  evalZ (env_of (fmt_of i) w h y x c) (im_scratch_count gen_img) = Z.of_N (f_ncomp (fmt_of i) * w).
+Proof. exact FactsCheckImg.img_scratch_lemma. Qed.
+Print Assumptions facts_image_stack_one_row.
+
 (* each wrapper instantiates writeImage with the template arguments (sizeof COMP_T, N_COMP,
    PIXEL_COMP, FLIP) and passes the header format "<magic>\n%i %i\n<scale>\n" that Model.fmt_of says *)
 Theorem facts_image_formats : forall i, gen_fmt i = fmt_of i.
